@@ -1,6 +1,7 @@
 """C04 - Class constraints are complete and independent of declaration order."""
 import json, os
 from core import *
+from core import verdicts as core_verdicts
 import classes_common as cc
 
 PID = "C04"
@@ -35,6 +36,14 @@ def histories(res, wd, depth, npar, allperms, label, module="ClassHist", classes
             out.append(json.loads(rec))
     if len(out) != r["distinct"]:
         raise Machinery("ClassHist: %d histories printed for %d states" % (len(out), r["distinct"]))
+    # vacuity: every kind of declaration occurs (TLC attributes DoO/DoS/DoX to their common sub-action Go)
+    ev = {}
+    for rec in out:
+        for e in rec["h"]:
+            ev[e["e"]] = ev.get(e["e"], 0) + 1
+    res.extra.setdefault("declarations_by_kind", {})[label] = ev
+    if depth >= 2 and (classes is None) and set(ev) != {"O", "S", "X", "R", "T", "U"}:
+        raise Machinery("ClassHist: declaration kinds %s never enumerated" % sorted({"O", "S", "X", "R", "T", "U"} - set(ev)))
     return out
 
 
@@ -59,15 +68,10 @@ def validate(res, traces, wd, module="ClassesTrace", cfg=TRACE_CFG, name="traces
         write_ndjson(path, chunk)
         r = tlc(module, cfg, wd, env=dict(TRACE_FILE=path), coverage=(s == 0))
         res.add_tlc(module, r)
-        verdicts = {}
-        for rec in split_prints(r["out"]):
-            if isinstance(rec, str) and rec.startswith('{"'):
-                d = json.loads(rec)
-                if d.get("v") == "V":
-                    verdicts[d["tid"]] = d["bad"]
-        if len(verdicts) != len(chunk):
-            raise Machinery("%s gave %d verdicts for %d traces:\n%s" % (
-                module, len(verdicts), len(chunk), "\n".join(r["out"].splitlines()[-25:])))
+        try:
+            verdicts = core_verdicts(r["out"], len(chunk))
+        except Machinery as e:
+            raise Machinery("%s: %s\n%s" % (module, e, "\n".join(r["out"].splitlines()[-25:])))
         for i, t in enumerate(chunk):
             out.append((t, verdicts[i + 1]))
         os.remove(path)
@@ -201,6 +205,13 @@ def run(tier):
     verdicts = validate(res, traces, wd)
     nontriv = judge(res, verdicts)
     res.distinct_nontrivial = len(nontriv)
+    cons_traces = [t for t in traces if t["kind"] == "cons"]
+    res.extra["scalar_constraints_compared"] = sum(len(t["cons"]) for t in cons_traces)
+    res.extra["lmis_compared"] = sum(len(t["lmis"]) for t in cons_traces)
+    res.extra["end_to_end_models"] = len(traces) - len(cons_traces)
+    res.extra["classes"] = len({t["cls"] for t in cons_traces})
+    if res.extra["classes"] != 24 or not res.extra["scalar_constraints_compared"] or not res.extra["lmis_compared"]:
+        raise Machinery("vacuous run: %s" % res.extra)
     res.samples = [dict(cls=t["cls"], P=pstr(t["P"]), history=t.get("hs", str(t.get("decls"))),
                         samples=len(t.get("samples", [])), constraints=len(t.get("cons", [])),
                         lmis=len(t.get("lmis", [])), values=t.get("val"))
@@ -223,9 +234,6 @@ def replay(path):
     res = Result(PID, "quick")
     wd = workdir(PID + "-replay")
     if rp["kind"] == "perm":
-        H = histories(res, wd, 0, 2, False, "ClassHist(depth 0)", classes=[rp["cls"]])
-        PTS[rp["cls"]] = [rp["P"], rp["P"]]
-        import itertools
         perms = permutations(res, wd, len(rp["decls"]))
         items = [dict(cls=rp["cls"], P=rp["P"], decls=rp["decls"], order=p) for p in perms]
         vals = pool_map("drv_c04", "run_perm", items)
